@@ -14,14 +14,12 @@ COMMON_NOTE = ("Trusted base: govc's SSA->SMT semantics (go/ssa of x/tools, Burs
                "A-arith (slice windows <= 2^31, indexes < 2^62 where stated in #a-arith preconditions); environment assumptions appear as labelled preconditions "
                "(E-msg-wf, E-ready-contract, E-app-conf, E-leader-complete, E-snapshot-conf-valid) and are listed per function in the evidence file together with every "
                "trusted contract (raft.switchToConfig, raft.appliedSnap, confchange.Restore, "
-               "assertConfStatesEquivalent, lockedRand.Intn, DescribeConfChange).")
+               "assertConfStatesEquivalent, confchange.symdiff, lockedRand.Intn, DescribeConfChange).")
 props = json.loads(subprocess.run(["/verif/bin/govc", "props"], capture_output=True, text=True, check=True).stdout)
 CLAIMED = {pid: dict(cat=v["Level"], ref=DESIGN_REF[pid], text=v["Explanation"], note=COMMON_NOTE) for pid, v in props.items()}
 
 NOT_YET = "no contract-based check has been built for this property yet (see DESIGN.md §12)"
 NA = {
-    "C13": "the confchange package (Changer.Simple/EnterJoint/LeaveJoint, checkInvariants, Restore round trip) is not under contract yet: only the call-site obligations in raft.restore "
-           "(fresh empty tracker handed to Restore, limits kept) and tracker.MakeProgressTracker are proved, which is too little to claim the configuration algebra (DESIGN.md §12)",
     "C15": "liveness of a multi-node system under fairness: function contracts and (two-state) invariants constrain single calls on one node and cannot "
            "state that something eventually happens across nodes; per-call termination variants are discharged but do not imply convergence (DESIGN.md §5)",
 }
